@@ -105,6 +105,13 @@ def gen_case(rng, tier, avoid):
         if rng.random() < 0.3:
             # warm hit of the identical key
             hist.append({'op': 'encode', 'code': code, 'v': lit, 'exp': list(exp), 'after_collider': True})
+    # ask again for values encoded earlier, after everything else went through the dispatch (cache hits after intervening encodes)
+    firsts = [dict(op) for op in hist if 'exp' in op]
+    rng.shuffle(firsts)
+    for op in firsts[:rng.choice([1, 2, 4, 8])]:
+        op['after_collider'] = True
+        op['reprobe'] = True
+        hist.append(op)
     if tier == 'thorough' and rng.random() < 0.004:
         hist.insert(rng.randint(0, len(hist)), {'op': 'flood', 'n': 70000})
     return {'scenario': {'env': {'tz': tz}, 'history': hist}, 'params': {}}
